@@ -210,6 +210,46 @@ def alloc_oracle(run, L, codec):
     run.coverage["alloc_worst_bytes_per_input_byte"] = round(worst, 1)
 
 
+def wide_int_oracle(run, L, drv, progs):
+    """a binary integer under a BER-TLV length announcing MORE bytes than the field is wide (`1F 1A 03 01 00 00` into a u16): a
+    number that does not fit its field — the property demands an error"""
+    from .c13 import split_groups, frame
+    rng = run.rng
+    cases, what = [], []
+    for s in L["structs"]:
+        for j, f in enumerate(s["fields"]):
+            ty = f["ty"]
+            while ty["k"] in ("opt", "vec"):
+                ty = ty["t"]
+            if f["tag"] is None or ty["k"] != "prim" or ty["p"] not in ("u8", "u16", "u32", "u64") or f["length"] != "LTlv" \
+                    or f["encoding"] not in ("Default", "BigEndian"):
+                continue
+            w = {"u8": 1, "u16": 2, "u32": 4, "u64": 8}[ty["p"]]
+            v = layouts.minimal_value(s)
+            pos, groups = split_groups(s, v)
+            others = b"".join(g[1] for g in groups if g[0] != j)
+            for extra in (1, 2, 3):
+                n = (rng.randrange(1, 256) << (8 * w)) + rng.randrange(1 << (8 * w)) if extra == 1 else rng.randrange(1 << (8 * (w + extra - 1)), 1 << (8 * (w + extra)))
+                raw = n.to_bytes(w + extra, "big" if f["encoding"] == "BigEndian" else "little")
+                body = pos + others + layouts.tag_bytes(f["tag"]) + layouts.len_prefix("LTlv", len(raw)) + raw
+                cases.append("dec\t%s\t%s" % (s["name"], layouts.hexs(frame(s, body))))
+                what.append("%s.%s (%s, tag 0x%x) announced with %d bytes: the number %d" % (s["name"], f["name"], ty["p"], f["tag"], w + extra, n))
+    for label, prog in progs:
+        flat, mo, io = run_pair(run, drv, prog, cases, "c02wide" + label)
+        if mo is None:
+            continue
+        label_of = dict(zip(cases, what))
+        for c, m, i in zip(flat, mo, io):
+            wh = label_of.get(c, "")
+            if not i.startswith("Err "):
+                run.violation(kind="input", case=c, expected="an error: the number does not fit its field", observed=i[:300] + " (%s build)" % label,
+                              how_found="oracle", detail=wh, finding_class="binary-integer-announced-wider-than-its-field")
+            else:
+                run.nontrivial.add("wide:" + c[-40:])
+        run.evaluations += len(flat)
+    run.coverage["wide_integer_cases"] = len(cases)
+
+
 def check(run):
     proof_part(run, "C02")
     L = layouts.load()
@@ -231,6 +271,7 @@ def check(run):
     report_diffs(run, all_diffs, "coq/Codec.v", "the decoders generated by zvt_derive", "codec")
     calendar_oracle(run, drv, (('debug', dbg), ('release', rel)))
     alloc_oracle(run, L, dbg)
+    wide_int_oracle(run, L, drv, (('debug', dbg), ('release', rel)))
     if any(not v.get("no_failing_input_found") for v in run.violations):
         run.violations = [v for v in run.violations if not v.get("no_failing_input_found")]
     return vlib.finish(run, trusted_base=TB,
